@@ -101,6 +101,13 @@ func H_c12() {
 		}
 	}
 	repl := verifString("replacement")
+	if verifParam("fieldNames") == "sym" {
+		// with --redactFieldNames given as well (arbitrary prefix): same claims, both runs
+		SetEagerRedactionPaths([]string{verifString("eagerPrefix")})
+		for _, g := range verifHoles("L0", "G") {
+			verifAssume(g != "")
+		}
+	}
 	r := verifRunTree("L0")
 	if r == nil {
 		return
@@ -127,6 +134,19 @@ func H_c12() {
 func H_c13() {
 	repl := verifString("replacement")
 	SetRedactedString(repl)
+	// "depends only on the name component and the replacement prefix": every other option of the
+	// run is arbitrary (value switches, namespace / field-name mode, encrypt mode with any key)
+	SetRedactNumbers(verifBool("redactNumbers"))
+	SetRedactBooleans(verifBool("redactBooleans"))
+	SetRedactIPs(verifBool("redactIPs"))
+	SetRedactNamespaces(verifBool("redactNamespaces"))
+	if verifBool("fieldNameMode") {
+		SetEagerRedactionPaths([]string{verifString("eagerPrefix")})
+	}
+	if verifBool("encryptMode") {
+		SetEncryptionKey(verifKey())
+		SetShouldEncrypt(true)
+	}
 	name := verifString("name")
 	got := HashName(name)
 	verifEmit(got)
